@@ -75,4 +75,3 @@ Proof.
   destruct r as [|[|r]]; simpl; [now apply IH| |lia].
   constructor; [|now apply IH]. intros Hin. apply H3. now apply Hsub.
 Qed.
-Print Assumptions C14_boost_le_1.
